@@ -44,8 +44,18 @@ def sweep(ctx, N):
             return exprs.ev_np(e, x)
         for method in NMAX:
             for n in range(0, NMAX[method] + 1):
-                for order in ([2, 4] if n <= 4 else [2]):
+                extra = int(rng.choice([1, 3, 5, 6, 7, 8]))        # every order 1..8 is met over the sweep
+                for order in ([2, 4] if n <= 4 else [2]) + [extra]:
                     xs = x0 if (done + n) % 3 else np.array([x0, x0])
+                    if order == extra and order > 4 and n > 0 and method in ('central', 'forward', 'backward'):
+                        # a long rule leaves no estimate free of the largest default steps: the whole stencil must lie where f is tame
+                        try:
+                            from .C02 import steps_of
+                            hi = steps_of(nd.Derivative(f, n=n, method=method, order=order), x0)[1]
+                            if not exprs.well_defined(m, e, x0, radius=1.05 * hi * (2 if method == 'central' and n % 2 == 0 else 1)):
+                                continue
+                        except Exception:   # noqa
+                            continue
                     try:
                         got = nd.Derivative(f, n=n, method=method, order=order)(xs)
                         got = float(np.ravel(got)[0])
